@@ -16,6 +16,7 @@ MODULES = ['nl.bsn', 'nl.onderwijsnummer', 'pl.nip', 'pl.regon', 'pt.nif', 'dk.c
            'in_.epic', 'it.aic', 'mc.tva', 'nl.postcode', 'nl.brin', 'nl.identiteitskaartnummer', 'no.kontonr', 'pk.cnic',
            'ad.nrt', 'bg.pnf', 'do.ncf', 'es.cae', 'fi.ytunnus', 'fr.nif', 'gb.upn', 'ie.vat', 'pe.cui', 'pt.cc', 'ru.ogrn',
            'se.postnummer', 'se.vat', 'si.maticna', 'sm.coe', 'sv.nit', 'th.moa', 'at.tin',
+           'bg.egn', 'cu.ni', 'cz.rc', 'sk.rc', 'lt.asmens', 'ro.cnp', 'kr.rrn', 'gr.amka', 'is_.kennitala', 'dk.cpr', 'za.idnr',
            'no.fodselsnummer', 'fi.hetu', 'ch.ssn', 'lv.pvn', 'pl.pesel', 'ee.ik']
 
 
